@@ -68,3 +68,114 @@ fn probe_mpsc_recv() {
     std::mem::forget(tx);
     std::mem::forget(rx);
 }
+
+#[kani::proof]
+#[kani::stub(std_catch_unwind, cu)]
+#[kani::unwind(7)]
+fn probe_default_cfg() {
+    let c = shared_default_config();
+    assert!(c.raft.election.election_timeout_min == 500);
+    kani::cover!(true, "reached");
+    std::mem::forget(c);
+}
+
+#[kani::proof]
+#[kani::stub(std_catch_unwind, cu)]
+#[kani::stub(tracing::level_filters::LevelFilter::current, stub_level_off)]
+#[kani::stub(std::hash::RandomState::new, stub_random_state_new)]
+#[kani::stub(std::fmt::format, stub_format)]
+#[kani::unwind(2)]
+fn probe_bcast_silent() {
+    let o = crate::h_election::drive_broadcast(b"S");
+    kani::cover!(!o.ok, "lost");
+}
+#[kani::proof]
+#[kani::stub(std_catch_unwind, cu)]
+#[kani::stub(tracing::level_filters::LevelFilter::current, stub_level_off)]
+#[kani::stub(std::hash::RandomState::new, stub_random_state_new)]
+#[kani::stub(std::fmt::format, stub_format)]
+#[kani::unwind(2)]
+fn probe_bcast_none() {
+    let o = crate::h_election::drive_broadcast(b"");
+    kani::cover!(o.ok, "won");
+}
+
+#[kani::proof]
+#[kani::stub(std_catch_unwind, cu)]
+#[kani::stub(tracing::level_filters::LevelFilter::current, stub_level_off)]
+#[kani::stub(std::hash::RandomState::new, stub_random_state_new)]
+#[kani::stub(std::fmt::format, stub_format)]
+#[kani::unwind(7)]
+fn probe_b1() {
+    let mem = std::sync::Arc::new(VMem::new(1, 0, 0));
+    let r = run_ready(mem.is_single_node_cluster());
+    assert!(r);
+    kani::cover!(r, "x");
+    std::mem::forget(mem);
+}
+#[kani::proof]
+#[kani::stub(std_catch_unwind, cu)]
+#[kani::stub(tracing::level_filters::LevelFilter::current, stub_level_off)]
+#[kani::stub(std::hash::RandomState::new, stub_random_state_new)]
+#[kani::stub(std::fmt::format, stub_format)]
+#[kani::unwind(7)]
+fn probe_b2() {
+    let mem = std::sync::Arc::new(VMem::new(1, 0, 0));
+    let tr = std::sync::Arc::new(VTr::new());
+    let log = std::sync::Arc::new(VLog::empty());
+    let settings = shared_default_config();
+    let h = ElectionHandler::<VT>::new(1);
+    let r = run_ready(h.broadcast_vote_requests(5, mem.clone(), &log, &tr, &settings));
+    assert!(r.is_ok());
+    kani::cover!(r.is_ok(), "x");
+    std::mem::forget(r);
+    std::mem::forget(mem);
+    std::mem::forget(tr);
+    std::mem::forget(log);
+    std::mem::forget(settings);
+}
+#[kani::proof]
+#[kani::stub(std_catch_unwind, cu)]
+#[kani::stub(tracing::level_filters::LevelFilter::current, stub_level_off)]
+#[kani::stub(std::hash::RandomState::new, stub_random_state_new)]
+#[kani::stub(std::fmt::format, stub_format)]
+#[kani::unwind(7)]
+fn probe_b3() {
+    let mem = std::sync::Arc::new(VMem::new(3, 0, 0));
+    let tr = std::sync::Arc::new(VTr::new());
+    let log = std::sync::Arc::new(VLog::empty());
+    let settings = shared_default_config();
+    let h = ElectionHandler::<VT>::new(1);
+    let r = run_ready(h.broadcast_vote_requests(5, mem.clone(), &log, &tr, &settings));
+    assert!(r.is_err());
+    kani::cover!(r.is_err(), "x");
+    std::mem::forget(r);
+    std::mem::forget(mem);
+    std::mem::forget(tr);
+    std::mem::forget(log);
+    std::mem::forget(settings);
+}
+
+// b4: same as b2 but a panic marker right after the call; + transport stub that must not be reached
+#[kani::proof]
+#[kani::stub(tracing::callsite::DefaultCallsite::register, stub_callsite_register)]
+#[kani::stub(std_catch_unwind, cu)]
+#[kani::stub(tracing::level_filters::LevelFilter::current, stub_level_off)]
+#[kani::stub(std::hash::RandomState::new, stub_random_state_new)]
+#[kani::stub(std::fmt::format, stub_format)]
+#[kani::unwind(3)]
+fn probe_b4() {
+    let mem = std::sync::Arc::new(VMem::new(1, 0, 0));
+    let tr = std::sync::Arc::new(VTr::new());
+    let log = std::sync::Arc::new(VLog::empty());
+    let settings: std::sync::Arc<RaftNodeConfig> = unsafe { std::mem::transmute(std::sync::Arc::new(std::mem::MaybeUninit::<RaftNodeConfig>::uninit())) };
+    let h = ElectionHandler::<VT>::new(1);
+    let r = run_ready(h.broadcast_vote_requests(5, mem.clone(), &log, &tr, &settings));
+    assert!(r.is_ok());
+    kani::cover!(r.is_ok(), "x");
+    std::mem::forget(r);
+    std::mem::forget(mem);
+    std::mem::forget(tr);
+    std::mem::forget(log);
+    std::mem::forget(settings);
+}
